@@ -396,6 +396,20 @@ def ge9(P, C):
         if any(re.match(r"^\(\(?\(long\*\)\(?section->j\)?\)?\[i\]\+=\(stride\*a->i\[\(%s%%a->ndim\)\]\[i\]\)\)$" % v, t) for t in texts):
             ok = direction == "descending" and len(texts) == 2 and texts[1] == "(stride*=a->ranges[(%s%%a->ndim)])" % v
             flat = (L, ok, "flatten: %s over %s: %s" % (direction, v, texts))
+        else:
+            # the column number accumulated in a local that starts at 0 and is stored into section->j[i] after the loop
+            m_ = next((re.match(r"^\((\w+)\+=\(stride\*a->i\[\(%s%%a->ndim\)\]\[i\]\)\)$" % v, t) for t in texts
+                       if re.match(r"^\((\w+)\+=\(stride\*a->i\[\(%s%%a->ndim\)\]\[i\]\)\)$" % v, t)), None)
+            if m_ and flat is None:
+                acc = m_.group(1)
+                sibs = f.ch(f.parent[L]) if f.k(f.parent[L]) == "CompoundStmt" else []
+                k0 = sibs.index(L) if L in sibs else -1
+                before = [R(x) for x in sibs[:k0]] if k0 >= 0 else []
+                after = [R(x) for x in sibs[k0 + 1:]] if k0 >= 0 else []
+                stored = any(re.match(r"^\(\(?\(long\*\)\(?section->j\)?\)?\[i\]=%s\)$" % acc, t) for t in after)
+                zeroed = "(%s=0)" % acc in before and not any(t.startswith("(%s" % acc) and t != "(%s=0)" % acc for t in before)
+                ok = direction == "descending" and len(texts) == 2 and texts[1] == "(stride*=a->ranges[(%s%%a->ndim)])" % v and stored and zeroed
+                flat = (L, ok, "flatten into %s (zeroed before: %s, stored to section->j[i] after: %s): %s over %s: %s" % (acc, zeroed, stored, direction, v, texts))
         stores = [t for t in texts if re.match(r"^\(a->i\[\(%s%%a->ndim\)\]\[i\]=" % v, t)]
         if stores:
             t = stores[0]
